@@ -122,30 +122,44 @@ def r1_run_level(ctx):
         if g.in_loop(n):
             ctx.finding(f, c, 'evolving_failed.send can be emitted more than '
                         'once')
-    # exceptional exits from inside the try pass evolving_failed
-    n_exc = 0
-    for n in tries:
-        for s, l in n.succ:
+    # every exceptional exit after evolving.send passes evolving_failed
+    # (unless evolved was already sent): no path from the statement after
+    # evolving.send to EXC-EXIT avoids both kinds of send.
+    # "except Exception" is the failure notion of the property:
+    # BaseException-only exits (KeyboardInterrupt) are out of scope.
+    drop = {(h.id, 'F') for h in g.nodes if h.kind == 'except' and
+            h.ast.type is not None and unparse(h.ast.type) == 'Exception'}
+    after_b = [s_ for s_, l in b.succ if l != 'exc']
+    raising = [n for n in g.nodes
+               if n.id in g.reachable(after_b, avoid=done_nodes + failed_nodes,
+                                      drop_edges=drop) and
+               any(l == 'exc' for _, l in n.succ) and
+               n not in failed_nodes]
+    n_exc = len(raising)
+    bad = None
+    for n in raising:
+        for s_, l in n.succ:
             if l != 'exc':
                 continue
-            n_exc += 1
-            # "except Exception" is the failure notion of the property:
-            # BaseException-only exits (KeyboardInterrupt) are out of scope
-            drop = {(h.id, 'F') for h in g.nodes if h.kind == 'except' and
-                    h.ast.type is not None and
-                    unparse(h.ast.type) == 'Exception'}
-            w = g.path(s, g.exc_exit, avoid=failed_nodes, drop_edges=drop) \
-                if s is not g.exc_exit else [n, s]
+            w = [n, s_] if s_ is g.exc_exit else g.path(
+                s_, g.exc_exit, avoid=failed_nodes + done_nodes,
+                drop_edges=drop)
+            if w is not None and s_ is not g.exc_exit:
+                w = [n] + w
             if w is not None:
-                ctx.finding(f, n.ast, 'an exception raised at "%s" inside the '
-                            'try leaves evolve() without evolving_failed' %
-                            n.text(), path=w)
+                bad = (n, w)
                 break
-    ctx.floor('raising nodes inside the try', n_exc, 3)
-    if not any(o['verdict'] != 'holds' and 'inside the try leaves' in o['what']
-               for o in ctx.obligations):
-        ctx.ok(f, 'all %d exceptional edges out of the try pass '
-               'evolving_failed.send' % n_exc)
+        if bad:
+            break
+    ctx.floor('raising nodes after evolving.send', n_exc, 3)
+    if bad:
+        ctx.finding(f, bad[0].ast, 'an exception raised at "%s" after '
+                    'evolving.send leaves evolve() with neither evolved nor '
+                    'evolving_failed' % bad[0].text(), path=bad[1],
+                    key='exc-exit-without-failed:' + norm_key(bad[0].ast))
+    else:
+        ctx.ok(f, 'all %d raising statements after evolving.send lead to '
+               'evolving_failed.send (or come after evolved.send)' % n_exc)
     # ordering after save / flag
     saves = nodes_with_call(g, '_save_project_sig')
     flags = [n for n in assigns_to_self_attr(g, 'evolved')
